@@ -9,6 +9,7 @@ import (
 	"sort"
 	"strings"
 	"sync"
+	"sync/atomic"
 	"time"
 
 	"verif/sim/netsim"
@@ -245,9 +246,12 @@ func (d *Deployment) buildNode(id uint16) {
 	}
 	if cfg.RealInitDelayMs > 0 && cfg.Backend != "scripted" {
 		innerKG, innerSG := kgf, sf
-		delay := time.Duration(cfg.RealInitDelayMs) * time.Millisecond
-		kgf = func(fid uint16) tss.KeyGenerator { return &slowInitKG{KeyGenerator: innerKG(fid), d: delay} }
-		sf = func(fid uint16) tss.Signer { return &slowInitSG{Signer: innerSG(fid), d: delay} }
+		var ninst atomic.Int64
+		delay := func() time.Duration {
+			return scripted.SimDelay(cfg.RealInitDelayMs, []byte{byte(id), byte(id >> 8), byte(ninst.Add(1))})
+		}
+		kgf = func(fid uint16) tss.KeyGenerator { return &slowInitKG{KeyGenerator: innerKG(fid), d: delay()} }
+		sf = func(fid uint16) tss.Signer { return &slowInitSG{Signer: innerSG(fid), d: delay()} }
 	}
 	send := w.SendFunc(id)
 	var p tss.MpcParty
@@ -264,7 +268,7 @@ func (d *Deployment) buildNode(id uint16) {
 		if cfg.PickDelayMs > 0 {
 			inner := pick
 			pick = func(topic []byte, expected int) []uint16 {
-				time.Sleep(time.Duration(cfg.PickDelayMs) * time.Millisecond)
+				time.Sleep(scripted.SimDelay(cfg.PickDelayMs, topic, []byte{byte(id), byte(id >> 8)}))
 				return inner(topic, expected)
 			}
 		}
